@@ -56,3 +56,94 @@ def idempotent_delete(R, ctx, rid):
         ok = av.has_guard(cs.bb, lambda l: lit_call(l, "yrs::block::Block::is_deleted", False)
                           or lit_call(l, "yrs::block::Item::is_deleted", False))
         R.ob(rid, ad, site, ok, "guards: %s" % av.guard_descs(cs.bb), cs.loc())
+
+
+def unapplied_within_range(R, ctx, rid):
+    """every deletion stashed by apply_delete lies inside the incoming range it came from."""
+    import json as _json
+    import re
+    Y = ctx.yrs
+    R.rule(rid, "R-PROV stashed deletions stay inside the incoming range: every `unapplied.insert(ID::new(client, S), L)` in "
+                "TransactionMut::apply_delete has L = E - S or L = min(_, E - S) with E the end of the incoming range and S the very "
+                "clock the stashed range starts at (value numbering over MIR) — a longer remainder is replayed later as a deletion "
+                "nobody made, and travels to every replica with the delete set")
+    fn = Y.fn("yrs::transaction::TransactionMut::apply_delete")
+
+    def is_range_end(op):
+        r = mir_root(fn, op)
+        if r[0] == "place":
+            try:
+                pl = _json.loads(r[1])
+            except Exception:
+                return False
+            pr = [x for x in pl.get("p", []) if isinstance(x, str) and x != "*"]
+            return bool(pr) and pr[-1].endswith("Range.end")
+        return False
+
+    def diff_from_end(op, skey):
+        d = mir_difference(fn, op)
+        if not d:
+            return False
+        e, s = d
+        return is_range_end(e) and mir_value_key(fn, s) == skey
+
+    ins = []
+    for cs in fn.calls_to("yrs::id_set::IdSet::insert"):
+        if len(cs.args) != 3:
+            continue
+        recv = mir_root(fn, cs.args[0])
+        # the receiver is the local set that is returned (not self.delete_set)
+        if recv[0] == "local" and "IdSet" in str(fn.local_ty(recv[1])):
+            ins.append(cs)
+    R.floor(rid, "insertions into the unapplied set in apply_delete", len(ins), 4)
+    v = FnView(fn)
+    for cs, site in ordinal_sites(ins):
+        d = mir_def(fn, cs.args[1])
+        if not (d and d[0] == "call" and F.strip_generics(d[1].name).endswith("ID::new") and len(d[1].args) == 2):
+            R.ob(rid, fn, site, False, "the stashed id is not built with ID::new(client, clock)", cs.loc())
+            continue
+        skey = mir_value_key(fn, d[1].args[1])
+        L = cs.args[2]
+        ok = diff_from_end(L, skey)
+        how = "L = end - start"
+        if not ok:
+            dl = mir_def(fn, L)
+            if dl and dl[0] == "call" and re.search(r"(Ord(<.*>)?::min|::min)$", dl[1].name) and len(dl[1].args) == 2:
+                ok = any(diff_from_end(a, skey) for a in dl[1].args)
+                how = "L = min(_, end - start)"
+        R.ob(rid, fn, site, ok,
+             "%s with the start the range is stashed at" % how if ok else
+             "stashed length %s is not `end of the incoming range - %s` (nor a min with it): the stashed range can run past the "
+             "deletion that was received" % (sshow(v.arg(cs, 2, 10), 6), sshow(v.terms.operand(d[1].args[1], 8), 4)), cs.loc())
+
+    # the first and the last block of the range are split exactly at the range boundaries
+    sp = fn.calls_to("yrs::block_store::BlockStore::split_block_inner")
+    R.floor(rid, "boundary splits in apply_delete", len(sp), 2)
+    for cs, site in ordinal_sites(sp):
+        d = mir_difference(fn, cs.args[2]) if len(cs.args) == 3 else None
+        ok = False
+        why = "split offset is not a difference"
+        if d:
+            b, c = d
+            rb = mir_root(fn, b)
+            bound = False
+            if rb[0] == "place":
+                try:
+                    pl = _json.loads(rb[1])
+                    pr = [x for x in pl.get("p", []) if isinstance(x, str) and x != "*"]
+                    bound = bool(pr) and (pr[-1].endswith("Range.end") or pr[-1].endswith("Range.start"))
+                except Exception:
+                    bound = False
+            rc = mir_root(fn, c)
+            same_item = False
+            if rc[0] == "place":
+                try:
+                    pl = _json.loads(rc[1])
+                    pr = [x for x in pl.get("p", []) if isinstance(x, str) and x != "*"]
+                    if len(pr) >= 2 and pr[-1].endswith("ID.clock") and pr[-2].endswith("Item.id"):
+                        same_item = True
+                except Exception:
+                    same_item = False
+            ok = bound and same_item
+            why = "split offset = <range boundary> - <item>.id.clock: boundary=%s item-clock=%s" % (bound, same_item)
+        R.ob(rid, fn, "split:" + site.rsplit("#", 1)[-1], ok, why, cs.loc())
